@@ -24,6 +24,7 @@
 
 #include "galois/config.h"
 #include "galois/runtime/Substrate.h"
+#include "galois/substrate/Verif.h"
 #include "galois/worklists/Chunk.h"
 #include "galois/worklists/WLCompileCheck.h"
 
@@ -101,6 +102,7 @@ public:
         return r;
 
       barrier.wait();
+      GALOIS_VERIF_POINT(BSP_FLIP);
       if (substrate::ThreadPool::getTID() == 0) {
         if (!some.get())
           isEmpty = true;
